@@ -23,6 +23,12 @@ func (consumer *Consumer) Loop() {
 		if len(consumer.loopData.chans.dirChan) == 0 &&
 			len(consumer.loopData.chans.fileChan) == 0 {
 			if consumer.lifecycle.Step() == StepClose {
+				// an item may have been enqueued between the emptiness test above and the
+				// close step: re-check the queues before leaving (nothing is added after StepClose)
+				if len(consumer.loopData.chans.dirChan) != 0 ||
+					len(consumer.loopData.chans.fileChan) != 0 {
+					continue
+				}
 				return
 			}
 			runtime.Gosched()
